@@ -688,6 +688,12 @@ impl<'a> Repr<'a> {
         if self.lease_duration.is_some() {
             len += 6;
         }
+        if self.renew_duration.is_some() {
+            len += 6;
+        }
+        if self.rebind_duration.is_some() {
+            len += 6;
+        }
         if let Some(dns_servers) = &self.dns_servers {
             len += 2;
             len += dns_servers.iter().count() * core::mem::size_of::<u32>();
@@ -914,6 +920,18 @@ impl<'a> Repr<'a> {
             if let Some(val) = &self.lease_duration {
                 options.emit(DhcpOption {
                     kind: field::OPT_IP_LEASE_TIME,
+                    data: &val.to_be_bytes(),
+                })?;
+            }
+            if let Some(val) = &self.renew_duration {
+                options.emit(DhcpOption {
+                    kind: field::OPT_RENEWAL_TIME_VALUE,
+                    data: &val.to_be_bytes(),
+                })?;
+            }
+            if let Some(val) = &self.rebind_duration {
+                options.emit(DhcpOption {
+                    kind: field::OPT_REBINDING_TIME_VALUE,
                     data: &val.to_be_bytes(),
                 })?;
             }
